@@ -17,6 +17,10 @@ hooks = json.load(open(hf)) if os.path.exists(hf) else {}
 checks, na = [], []
 for q in allp:
     pid = q["id"]
+    if pid in props and not props[pid].get("disabled") and not all(k in props[pid] for k in ("level_text", "level_note", "theorems", "lean_modules")):
+        print(f"warning: props/{pid}.json is incomplete (needs level_text, level_note, theorems, lean_modules) - not registered yet")
+        na.append({"property_id": pid, "reason": "check under construction in this snapshot (registration file incomplete); not decided by any other technique"})
+        continue
     if pid in props and not props[pid].get("disabled"):
         p = props[pid]
         checks.append({
